@@ -155,6 +155,16 @@ type sequentialFieldsMap struct {
 	// We can't use map[string][]*ast.Field. because map is not stable...
 	seq  []string
 	data map[string][]*ast.Field
+	// origin identifies the selection set the map was collected from (its first
+	// selection); nil for an empty selection set.
+	origin *ast.Selection
+}
+
+// fieldsAndFragment names one comparison of a selection set's fields with a fragment.
+type fieldsAndFragment struct {
+	fields               *ast.Selection
+	fragment             string
+	areMutuallyExclusive bool
 }
 
 type fieldIterateEntry struct {
@@ -242,6 +252,10 @@ type overlappingFieldsCanBeMergedManager struct {
 	comparedFragmentPairs pairSet
 	// cachedFieldsAndFragmentNames interface{}
 
+	// comparisons of a selection set's fields with a fragment that are under way:
+	// when fragments spread each other in a cycle, comparing the sub selection
+	// sets of two fields leads back to the comparison that started it.
+	fieldsAndFragmentsInProgress map[fieldsAndFragment]bool
 }
 
 func (m *overlappingFieldsCanBeMergedManager) findConflictsWithinSelectionSet(selectionSet ast.SelectionSet) []*ConflictMessage {
@@ -288,10 +302,23 @@ func (m *overlappingFieldsCanBeMergedManager) collectConflictsBetweenFieldsAndFr
 		return
 	}
 
+	if fieldsMap.origin != nil {
+		key := fieldsAndFragment{fieldsMap.origin, fragmentSpread.Name, areMutuallyExclusive}
+		if m.fieldsAndFragmentsInProgress[key] {
+			// already being compared further up the stack (fragment cycle)
+			return
+		}
+		if m.fieldsAndFragmentsInProgress == nil {
+			m.fieldsAndFragmentsInProgress = make(map[fieldsAndFragment]bool)
+		}
+		m.fieldsAndFragmentsInProgress[key] = true
+		defer delete(m.fieldsAndFragmentsInProgress, key)
+	}
+
 	fieldsMapB, fragmentSpreads := getFieldsAndFragmentNames(fragmentSpread.Definition.SelectionSet)
 
 	// Do not compare a fragment's fieldMap to itself.
-	if reflect.DeepEqual(fieldsMap, fieldsMapB) {
+	if reflect.DeepEqual(fieldsMap.seq, fieldsMapB.seq) && reflect.DeepEqual(fieldsMap.data, fieldsMapB.data) {
 		return
 	}
 
@@ -571,6 +598,9 @@ func getFieldsAndFragmentNames(selectionSet ast.SelectionSet) (*sequentialFields
 	verifhook.Step(verifhook.SiteOverlapCollect)
 	fieldsMap := sequentialFieldsMap{
 		data: make(map[string][]*ast.Field),
+	}
+	if len(selectionSet) > 0 {
+		fieldsMap.origin = &selectionSet[0]
 	}
 	var fragmentSpreads []*ast.FragmentSpread
 
